@@ -99,7 +99,10 @@ pub fn c13(run: &Run) -> Vec<String> {
             }
         }
         let refused = !x.discards.is_empty() || j.accepted == Some(false);
-        if x.starts.is_empty() && !refused && !j.send_failed {
+        // a request that was still in the mailbox when the drained factory stopped was never accepted:
+        // the submitter sees its acceptance port closed without an answer
+        let died_in_mailbox = j.after_drain && j.port_closed && j.accepted.is_none() && run.factory_status >= ActorStatus::Stopping;
+        if x.starts.is_empty() && !refused && !j.send_failed && !died_in_mailbox {
             missing += 1;
         }
         // started but neither ended nor on a dead incarnation: still blocked at the end although the
